@@ -188,6 +188,7 @@ TIERS = {
                   mc_store=[('hand+core6', 1, 'TRUE'), ('handseq', 2, 'FALSE')],   # (family, budget, Keep)
                   store=dict(explore=[('handseq', 1, 4, 1, ['--evict'])],
                              rand=[('hand', 500, 2, ['--evict']), ('core6', 900, 2, ['--evict']),
+                                   ('timed', 600, 2, ['--evict']),
                                    ('hand', 500, 2, ['--nokeep']), ('core6', 600, 2, ['--nokeep'])],
                              rand_budget=3, rand_pact=0.3, nat_runs=0),
                   clock=dict(explore=[('timedsmall', 0, 4, 2)], rand=[('timed+timedunits', 1200, 3)], rand_budget=2,
@@ -200,6 +201,7 @@ TIERS = {
                      mc_store=[('hand+core7', 2, 'TRUE'), ('hand+core6', 2, 'FALSE')],
                      store=dict(explore=[('handseq', 2, 12, 4, ['--evict']), ('handseq', 2, 8, 2, ['--nokeep'])],
                                 rand=[('hand', 6000, 4, ['--evict']), ('core7', 20000, 6, ['--evict']),
+                                      ('timed+timedunits', 8000, 4, ['--evict']),
                                       ('hand', 4000, 2, ['--nokeep']), ('core7', 10000, 4, ['--nokeep'])],
                                 rand_budget=4, rand_pact=0.3, nat_runs=0),
                      clock=dict(explore=[('timed', 2, 12, 4), ('timedunits', 1, 4, 1)],
